@@ -6442,6 +6442,8 @@ class Path(Shape, MutableSequence):
                 p.append(Move(end=Point(first.start)))
             p += subpath
         self._segments = p._segments
+        self._length = None
+        self._lengths = None
         if isinstance(self._segments[0], Move):
             self._segments[0].start = prepoint
         return self
@@ -7849,6 +7851,8 @@ class Subpath:
                 last.start = Point(self[-2].end)
             if last.end != self[0].end:
                 last.end = Point(self[0].end)
+        self._path._length = None
+        self._path._lengths = None
         return self
 
 
